@@ -447,6 +447,28 @@ theorem tmpName_never_a_save_file (file g : List Byte) (hg : g.getLast? = some N
   exact absurd hg (by decide)
 
 
+/-- **What the efun save_variable returns is never longer than MaxStringLength** (and is the text `save_svalue`
+    writes): the size test stands in front of the allocation, and the size bounds the text (`size_bounds_output`) -/
+theorem saveVariableEfun_ok (F : FloatOps α) (v : Value α) (t : List Byte) (h : saveVariableEfun F v = .ok t) :
+    t = save F v ∧ t.length ≤ maxStringLength := by
+  unfold saveVariableEfun at h
+  cases hs : saveSize F 0 v with
+  | none => simp [hs] at h
+  | some n =>
+    simp only [hs] at h
+    by_cases hl : n - 1 > maxStringLength
+    · simp [hl] at h
+    · simp only [hl, if_false] at h
+      have hb := size_bounds_output F 0 v n hs
+      unfold saveVariable at h
+      simp only [hs] at h
+      by_cases hfit : (save F v).length + 1 ≤ n
+      · simp only [hfit, if_true] at h
+        injection h with h
+        subst h
+        exact ⟨rfl, by omega⟩
+      · simp [hfit] at h
+
 /-! ## save_object as a whole: dry run, then the call script -/
 
 theorem saveScript_ok_shape (chunks : List (List Byte)) (j : Nat) (h : (saveScript chunks (some j)).2 ≠ 0) :
